@@ -6,6 +6,8 @@
 -/
 import XotModel.Model.FspecSpec
 import XotModel.Lemmas.ForestBasic
+import XotModel.Lemmas.FspecDetach
+import XotModel.Lemmas.FspecAppend
 
 namespace XotModel.Props
 open XotModel XotModel.Spec
@@ -36,6 +38,77 @@ theorem C05_later_survives_witness :
     (specMove Keep.earlier (.firstNormalChildOf 0) 2 laterWitness).isLive 2 = true ∧
     -- and both agree once handles are forgotten
     (laterWitness.prepend 0 2).1.content = (specMove Keep.earlier (.firstNormalChildOf 0) 2 laterWitness).content := by
+  decide
+
+/-! ### Scope
+
+  `Forest.Inv` is the C04 invariant.  `Forest.Normal f` says: if consolidation is on, the forest
+  holds no adjacent text nodes.  It follows from `Forest.Inv` while consolidation has never been
+  switched off (`normal_of_never_off`); after `set_text_consolidation(false)` … `(true)` adjacent
+  text nodes may exist, xot then merges only the pair that becomes adjacent while the
+  specification merges the whole run, so `Normal` is the boundary of the statements below. -/
+
+theorem normal_of_never_off {f : Forest} (inv : f.Inv) (h : f.everOff = false) : f.Normal := by
+  intro _
+  have := inv.valid
+  rw [h] at this
+  exact this
+
+/-! ### remove, detach -/
+
+/-- `remove` destroys exactly the targeted subtree; the two text nodes it separated are merged
+    into the earlier one (handle for handle, for either survivor rule). -/
+theorem C05_remove {f : Forest} {n : Nat} (inv : f.Inv) (norm : f.Normal) (live : f.isLive n = true) :
+    (f.remove n).1 = specRemove Keep.earlier n f ∧ (f.remove n).2 = .ok :=
+  ⟨remove_spec (Keep.earlier_spec n) inv norm live, rfl⟩
+
+/-- `detach`: the subtree becomes a parentless tree, nothing else changes but the merge of the two
+    text nodes it separated. -/
+theorem C05_detach {f : Forest} {n : Nat} (inv : f.Inv) (norm : f.Normal) (live : f.isLive n = true) :
+    (f.detach n).1 = specDetach Keep.earlier n f ∧ (f.detach n).2 = .ok :=
+  ⟨detach_spec (Keep.earlier_spec n) inv norm live, rfl⟩
+
+/-! ### append -/
+
+/-- A successful `append(p, c)` is the specification's move of `c` to the last position under
+    `p`, handle for handle: with the survivor rule of the property text (the earlier node) … -/
+theorem C05_append_exact {f : Forest} {p c : Nat} (inv : f.Inv) (norm : f.Normal)
+    (hok : (f.append p c).2 = .ok) :
+    (f.append p c).1 = specMove Keep.earlier (.lastChildOf p) c f :=
+  append_spec (Keep.earlier_spec c) inv norm hok
+
+/-- … and, equally, with xot's rule "the moved node never survives" (for `append` they coincide). -/
+theorem C05_append_resident {f : Forest} {p c : Nat} (inv : f.Inv) (norm : f.Normal)
+    (hok : (f.append p c).2 = .ok) :
+    (f.append p c).1 = specMove (Keep.resident c) (.lastChildOf p) c f :=
+  append_spec (Keep.resident_spec c) inv norm hok
+
+/-- The statement with handles forgotten. -/
+theorem C05_append {f : Forest} {p c : Nat} (inv : f.Inv) (norm : f.Normal)
+    (hok : (f.append p c).2 = .ok) :
+    (f.append p c).1.content = (specMove Keep.earlier (.lastChildOf p) c f).content := by
+  rw [C05_append_exact inv norm hok]
+
+/-- Same position: `append(p, c)` with `c` already the last child of `p` returns the forest itself. -/
+theorem C05_samepos_append {f : Forest} {p c : Nat} (hc : f.structureCheck (some p) c = true)
+    (h : f.lastChild p = some c) : f.append p c = (f, .ok) := by
+  simp [Forest.append, hc, h]
+
+/-- When a text node is appended after a text node, the EARLIER node survives: it keeps its
+    handle and carries both data, the appended node is gone. -/
+theorem C05_survivor_append_witness :
+    let f : Forest := { roots := [.node 0 (.element 2) [.node 1 (.text ['x']) []], .node 2 (.text ['y']) []], next := 3 }
+    f.inv = true ∧ (f.append 0 2).2 = .ok ∧ (f.append 0 2).1.isLive 2 = false ∧
+      (f.append 0 2).1.value? 1 = some (.text ['x', 'y']) := by
+  decide
+
+/-- Non-vacuity of the hypotheses: a forest satisfying `Inv` and `Normal` on which `append` succeeds
+    with a merge at the old place (`x<b/>y` loses `b`) and none at the new one. -/
+example :
+    let f : Forest := { roots := [.node 0 (.element 2) [.node 1 (.text ['x']) [], .node 2 (.element 3) [], .node 3 (.text ['y']) []],
+                                  .node 4 (.element 2) []], next := 5 }
+    f.inv = true ∧ (f.append 4 2).2 = .ok ∧ (f.append 4 2).1.value? 1 = some (.text ['x', 'y']) ∧
+      (f.append 4 2).1.isLive 3 = false := by
   decide
 
 end XotModel.Props
